@@ -34,11 +34,24 @@ type ATTx struct {
 // case 2. not need flush undolog, is XA mode, do local transaction commit
 // case 3. need run AT transaction
 func (tx *ATTx) Commit() error {
+	defer tx.leaveTx()
 	tx.tx.beforeCommit()
 	return tx.commitOnAT()
 }
 
+// leaveTx puts the proxy connection back into autocommit mode. When Commit or Rollback return,
+// database/sql treats the transaction as finished whatever the outcome; a connection that is not
+// handed back to the pool in between (sql.Conn), or whose driver has no session reset, would
+// otherwise stay in "explicit transaction" mode, and the next autocommit statement of a global
+// transaction on it would get no local transaction, no branch registration and no undo log.
+func (tx *ATTx) leaveTx() {
+	if tx.tx.conn != nil {
+		tx.tx.conn.autoCommit = true
+	}
+}
+
 func (tx *ATTx) Rollback() error {
+	defer tx.leaveTx()
 	err := tx.tx.Rollback()
 	if err != nil {
 
